@@ -90,6 +90,13 @@ CLAIMED['C04'] = dict(tech='lane-dependence abstract interpretation of the AVX2 
          'StripedSequence::new (wrap = 0) with wrap/length written nowhere else, dispatcher arms and index formulas. Striping moves bytes, so nothing data-dependent remains; NEON not analysable here.',
     ref='DESIGN.md §4 C04')
 
+CLAIMED['C06'] = dict(tech='pointer provenance / alignment classification and linear bounds entailment (Fourier-Motzkin) on the memory-access log of the lane engine, guard dominance on kernel call sites, who-may-call inventory of unsafe code',
+    text='Static (part): every unsafe fn and unsafe call of the core crate is inventoried and claimed by a rule; each scoring kernel has one caller whose call is dominated by the wrap check, the resize and the early '
+         'return; all 60+ aligned loads/stores/streams are on row-derived pointers at offsets and steps that are multiples of the access width (Row layout from rustc); every vector access through a slice pointer '
+         '(encoders, AVX2 striping: 36 accesses) is proved in bounds from the loop guard by linear entailment; row-pointer accesses stay inside their row; uninitialised storage escapes only when fully written. '
+         'Documented gap: caller-supplied row ranges outside the sequence rows (out of contract); std/generic-array/intrinsics trusted.',
+    ref='DESIGN.md §4 C06')
+
 NA = {
     'C11': 'numeric agreement of a tabulated distribution with the exact tail probability: quantifies over run-time floating-point values; no sound static argument in reach (DESIGN.md §6)',
     'C12': 'bounds computed probability ranges by exact tail probabilities at a granularity: run-time numerics, no structural necessary condition (DESIGN.md §6)',
